@@ -363,3 +363,48 @@ def restate_signatures(spec, i):
     b[1] = t2
     extra.extend([a, b])
     return {"restated": b}
+
+
+# ----------------------------------------------------------------------------- scale
+
+def big_notes(i, n=None, chans=(0, 1), pitches=(60, 61, 62, 64, 67), lmin=1, lmax=60, gap=(0, 40), lens=None, grid=None):
+    """Several hundred to a few thousand well-formed notes (per (channel, pitch) strictly sequential, abutting allowed), many of
+    them of one pitch, up to len(chans) * len(pitches) sounding at once, the last ticks beyond 2**16; linear-time construction
+    with its own random stream."""
+    import random
+    r = random.Random(f"big:{i}")
+    n = n or r.choice([300, 600, 1200, 2500])
+    keys = [(c, p) for c in chans for p in pitches]
+    weights = [8 if k == keys[0] else 1 for k in keys]          # one key gets most of the notes
+    cursor = {k: r.randrange(0, 50) for k in keys}
+    notes = []
+    for j in range(n):
+        k = r.choices(keys, weights)[0]
+        on = cursor[k] + (0 if r.random() < 0.3 else r.randint(*gap))
+        ln = r.choice(lens) if lens else r.randint(lmin, lmax)
+        if grid:
+            on = -(-on // grid) * grid
+        notes.append([k[0], k[1], on, ln, 1 + (j * 7) % 127])
+        cursor[k] = on + ln
+        if j == n // 2 and r.random() < 0.5:
+            top = max(cursor.values())
+            jump = r.choice([400, 1000, 5000, 70000, 140000])
+            for kk in keys:                                       # a rest of several bars (or beyond tick 2**16) in the middle
+                cursor[kk] = top + jump
+    return notes
+
+
+def msgs_from_notes(notes):
+    """raw relative message list (the format of raw_rel_seq) from well-formed notes, canonical equal-tick order"""
+    ev = []
+    for c, p, on, ln, v in notes:
+        ev.append((on, 1, ["on", c, p, v]))
+        ev.append((on + ln, 0, ["off", c, p]))
+    ev.sort(key=lambda e: (e[0], e[1]))
+    out, t = [], 0
+    for tt, _, m in ev:
+        if tt > t:
+            out.append(["wait", tt - t])
+            t = tt
+        out.append(m)
+    return out
